@@ -649,8 +649,15 @@ def _collocation_points(rng, nx, ny, sym):
     from openaerostruct.aerodynamics.collocation_points import CollocationPoints
     ss = _vlm_surfs(rng, nx, ny, sym)
     inp = OrderedDict((s["name"] + "_def_mesh", s["mesh"]) for s in ss)
+    # declared constant partials of every surface (row offset = panels of the surfaces before it) and every output
+    pats = []; off = 0
+    for s in ss:
+        snx, sny = s["mesh"].shape[:2]
+        for which, of in enumerate(["coll_pts", "force_pts", "bound_vecs"]):
+            pats.append(dict(op="CollocationPattern", ints=[snx, sny, 3 * off, which], of=of, wrt=s["name"] + "_def_mesh"))
+        off += (snx - 1) * (sny - 1)
     return dict(factory=lambda: CollocationPoints(surfaces=ss), ints=_vlm_ints(ss), consts=[], inputs=inp,
-                outputs=["coll_pts", "force_pts", "bound_vecs"])
+                outputs=["coll_pts", "force_pts", "bound_vecs"], pattern=pats)
 
 
 @spec("VortexMesh")
